@@ -205,9 +205,13 @@ class UpnpEventableStateVariable(UpnpStateVariable):
             asyncio.create_task(self.trigger_event())
         else:
             loop = asyncio.get_running_loop()
-            self._defered_event = loop.call_at(
-                next_update.timestamp(), self.trigger_event
-            )
+            delay = (next_update - self._updated_at).total_seconds()
+            self._defered_event = loop.call_later(delay, self._send_defered_event)
+
+    def _send_defered_event(self) -> None:
+        """Send the event that was held back by the moderation interval."""
+        self._defered_event = None
+        asyncio.create_task(self.trigger_event())
 
     async def trigger_event(self) -> None:
         """Update any waiting subscribers."""
